@@ -716,7 +716,7 @@ Lemma alloc_other_spec st cands size align kind :
   | AOFound st' idx id off =>
     In (idx, id) cands /\ 1 <= size /\
     exists st1 t t2, WF st1 /\ ext st st1 /\ d_table st1 = d_table st /\
-      find_id id (d_blocks st1) = Some t /\ st' = set_block st1 id t2 /\ TInv t2 /\ g_g (t_gran t2) = 1 /\
+      find_id id (d_blocks st1) = Some t /\ st' = set_block st1 id t2 /\ TInv t2 /\ g_g (t_gran t2) = 1 /\ Inv2 t2 /\
       exists l1 l2, live t = l1 ++ l2 /\ live t2 = l1 ++ new_blk off size (tmp_tag st) kind size align :: l2
   | AONone st' => WF st' /\ ext st st' /\ d_table st' = d_table st
   | AOPanic st' => WF st' /\ ext st st' /\ d_table st' = d_table st
@@ -726,16 +726,16 @@ Proof.
   - split; [auto|]. split; [apply ext_refl|reflexivity].
   - destruct (find_id id (d_blocks st)) as [t|] eqn:Hf.
     2:{ split; [auto|]. split; [apply ext_refl|reflexivity]. }
-    destruct (wb_tinv _ (wf_b _ HW) _ _ Hf) as (HT & Hg).
+    destruct (wb_tinv _ (wf_b _ HW) _ _ Hf) as (HT & Hg & HI2).
     destruct (may_have_free t kind size).
-    + pose proof (alloc_in_spec t size align kind 0 max_int (tmp_tag st) HT Hg Hpa) as Hs.
+    + pose proof (alloc_in_spec t size align kind 0 max_int (tmp_tag st) HT Hg HI2 Hpa) as Hs.
       destruct (alloc_in t size align kind 0 max_int (tmp_tag st)) as [t' off|t'|].
-      * destruct Hs as (HT' & Hg' & _ & Hs1 & Hle). split; [left; reflexivity|]. split; [exact Hs1|].
+      * destruct Hs as (HT' & Hg' & HI2' & _ & Hs1 & Hle). split; [left; reflexivity|]. split; [exact Hs1|].
         exists st, t, t'. split; [auto|]. split; [apply ext_refl|]. auto 10.
-      * destruct Hs as (HT' & Hg' & Hl).
-        assert (HW2 : WF (set_block st id t')) by (eapply wf_set_same; eauto).
+      * subst t'.
+        assert (HW2 : WF (set_block st id t)) by (eapply wf_set_same; eauto).
         specialize (IH _ HW2). rewrite tmp_tag_set_block in IH.
-        destruct (alloc_other (set_block st id t') rest size align kind) as [st' i2 id2 off2|st'|st'].
+        destruct (alloc_other (set_block st id t) rest size align kind) as [st' i2 id2 off2|st'|st'].
         -- destruct IH as (Hin & Hs1 & st1 & t1 & t2 & HW1 & He1 & Ht1 & R). split; [right; exact Hin|]. split; [exact Hs1|].
            exists st1, t1, t2. split; [exact HW1|]. split; [eapply ext_trans; [apply ext_set_block|exact He1]|].
            split; [rewrite Ht1; reflexivity|exact R].
@@ -743,7 +743,7 @@ Proof.
            rewrite Ht1; reflexivity.
         -- destruct IH as (HW1 & He1 & Ht1). split; [exact HW1|]. split; [eapply ext_trans; [apply ext_set_block|exact He1]|].
            rewrite Ht1; reflexivity.
-      * split; [auto|]. split; [apply ext_refl|reflexivity].
+      * destruct Hs.
     + specialize (IH _ HW).
       destruct (alloc_other st rest size align kind) as [st' i2 id2 off2|st'|st']; auto.
       destruct IH as (Hin & R). split; [right; exact Hin|exact R].
@@ -846,7 +846,7 @@ Lemma commit_move_spec st0 ms0 p0 ix cs new st1 did t t2 slot e bi dstidx off :
   entry (cs_st cs) slot = Some e -> u_temp e = false -> In (bi, u_blk e) ix ->
   Forall (key_above bi (u_off e)) new ->
   WF st1 -> ext (cs_st cs) st1 -> d_table st1 = d_table (cs_st cs) ->
-  find_id did (d_blocks st1) = Some t -> TInv t2 -> g_g (t_gran t2) = 1 ->
+  find_id did (d_blocks st1) = Some t -> TInv t2 -> g_g (t_gran t2) = 1 -> Inv2 t2 ->
   (exists l1 l2, live t = l1 ++ l2 /\
      live t2 = l1 ++ new_blk off (u_size e) (tmp_tag st1) (u_kind e) (u_size e) (u_align e) :: l2) ->
   In (dstidx, did) ix ->
@@ -854,7 +854,7 @@ Lemma commit_move_spec st0 ms0 p0 ix cs new st1 did t t2 slot e bi dstidx off :
   pass_running (cs_pass cs) -> (ps_bytes_moved (p_stats (cs_pass cs)) + u_size e <= p_max_bytes (cs_pass cs) /\ ps_allocs_moved (p_stats (cs_pass cs)) < p_max_allocs (cs_pass cs)) ->
   step_post st0 ms0 p0 ix bi (u_off e) new (commit_move cs (set_block st1 did t2) slot e bi dstidx did off).
 Proof.
-  intros [A B C D (E1 & E2) F G H I] Hent Htemp Hsrcix Hkeys HW1 Hext1 Htab1 Hfind HT2 Hg2 Hlive Hdstix Hfwd Hrun Hfit.
+  intros [A B C D (E1 & E2) F G H I] Hent Htemp Hsrcix Hkeys HW1 Hext1 Htab1 Hfind HT2 Hg2 HI22 Hlive Hdstix Hfwd Hrun Hfit.
   destruct (wf_own _ A _ _ Hent) as (_ & Hpa & Hs1).
   unfold commit_move.
   destruct (increment_counters (cs_pass cs) (u_size e)) as [p' r] eqn:Hinc.
@@ -943,17 +943,17 @@ Proof.
   intros HC Hent Htemp Hblk Hoff Hix Hkeys Hfind Hrun Hfit.
   pose proof (ci_wf _ _ _ _ _ _ HC) as HW.
   destruct (wf_own _ HW _ _ Hent) as (_ & Hpa & Hs1).
-  destruct (wb_tinv _ (wf_b _ HW) _ _ Hfind) as (HT & Hg).
+  destruct (wb_tinv _ (wf_b _ HW) _ _ Hfind) as (HT & Hg & HI2).
   unfold try_lower.
-  pose proof (alloc_lower_spec t (u_size e) (u_align e) (u_kind e) h (tmp_tag (cs_st cs)) HT Hg Hpa) as Hs.
+  pose proof (alloc_lower_spec t (u_size e) (u_align e) (u_kind e) h (tmp_tag (cs_st cs)) HT Hg HI2 Hpa Hs1) as Hs.
   destruct (alloc_lower t (u_size e) (u_align e) (u_kind e) h (tmp_tag (cs_st cs))) as [t' off|t'|].
-  - destruct Hs as (HT' & Hg' & Hlt & _ & Hle). subst h id.
+  - destruct Hs as (HT' & Hg' & HI2' & Hlt & _ & Hle). subst h id.
     eapply commit_move_spec; eauto. apply ext_refl.
-  - destruct Hs as (HT' & Hg' & Hl). apply step_post_nil; auto; try discriminate.
+  - subst t'. apply step_post_nil; auto; try discriminate.
     apply cinv_set_st; auto.
     + eapply wf_set_same; eauto.
     + apply ext_set_block.
-  - apply step_post_nil; auto; discriminate.
+  - destruct Hs.
 Qed.
 
 Lemma lower_if_spec st0 ms0 p0 ix cs new bi id h slot e :
@@ -993,7 +993,7 @@ Proof.
   { intros cs1 r <- Hnone.
     pose proof (alloc_other_spec (cs_st cs) (firstn (Z.to_nat bi) ix) (u_size e) (u_align e) (u_kind e) HW Hpa) as Hs.
     destruct (alloc_other (cs_st cs) (firstn (Z.to_nat bi) ix) (u_size e) (u_align e) (u_kind e)) as [st' idx did off|st'|st'].
-    - destruct Hs as (Hin & _ & st1 & t & t2 & HW1 & He1 & Ht1 & Hf1 & -> & HT2 & Hg2 & Hle).
+    - destruct Hs as (Hin & _ & st1 & t & t2 & HW1 & He1 & Ht1 & Hf1 & -> & HT2 & Hg2 & HI22 & Hle).
       apply indexed_from_firstn in Hin. destruct Hin as (Hidx & Hinix). rewrite Z2Nat.id in Hidx by lia.
       subst h id. eapply commit_move_spec; eauto.
       + assert (Htt : tmp_tag st1 = tmp_tag (cs_st cs)).
@@ -1341,13 +1341,13 @@ Qed.
 (* ================================================================== 7. completing a pass *)
 
 Lemma step_setud_spec t h tag t' :
-  TInv t -> g_g (t_gran t) = 1 -> set_user_data t h tag = Some t' ->
-  TInv t' /\ g_g (t_gran t') = 1 /\
+  TInv t -> g_g (t_gran t) = 1 -> Inv2 t -> set_user_data t h tag = Some t' ->
+  TInv t' /\ g_g (t_gran t') = 1 /\ Inv2 t' /\
   exists l1 b l2, live t = l1 ++ b :: l2 /\ b_off b = h /\ live t' = l1 ++ with_tag b tag :: l2.
 Proof.
-  intros HT Hg Hs. pose proof (step_preserves t (OSetUD h tag) HT I) as Hst. cbn [step] in Hst. rewrite Hs in Hst.
+  intros HT Hg HI2 Hs. pose proof (step_preserves t (OSetUD h tag) HT I) as Hst. cbn [step] in Hst. rewrite Hs in Hst.
   cbn [fst snd live_effect o_kind out] in Hst. destruct Hst as (HT' & Hle & _).
-  split; [exact HT'|]. split; [|exact Hle].
+  split; [exact HT'|]. split; [|split; [eapply set_user_data_inv2; eauto; apply HT|exact Hle]].
   destruct HT as (Hinv & _). destruct (set_user_data_spec _ _ _ _ Hinv Hs) as (_ & Hgr & _). rewrite Hgr. exact Hg.
 Qed.
 
@@ -1361,8 +1361,8 @@ Lemma set_ud_ok st id off tag st' :
 Proof.
   intros HB. unfold set_ud. destruct (find_id id (d_blocks st)) as [t|] eqn:Hf; [|discriminate].
   destruct (set_user_data t off tag) as [t'|] eqn:Hs; [|discriminate]. intros H; injection H as <-.
-  destruct (wb_tinv _ HB _ _ Hf) as (HT & Hg).
-  destruct (step_setud_spec _ _ _ _ HT Hg Hs) as (HT' & Hg' & l1 & b0 & l2 & Hl & Hb & Hl').
+  destruct (wb_tinv _ HB _ _ Hf) as (HT & Hg & HI2).
+  destruct (step_setud_spec _ _ _ _ HT Hg HI2 Hs) as (HT' & Hg' & HI2' & l1 & b0 & l2 & Hl & Hb & Hl').
   exists b0. split.
   { exists t. split; [exact Hf|]. split; [rewrite Hl; apply in_or_app; right; left; reflexivity|exact Hb]. }
   split; [eapply wfb_set; eauto|]. split; [reflexivity|]. split; [apply set_id_ids|].
